@@ -475,6 +475,10 @@ def run(tier, seed, rep):
     ajobs = [(c, 'udp', seed) for c in acfgs] + [(c, 'tcp', seed) for c in acfgs if c['family'] != 'ES'][::5]
     step = 1 if tier == 'thorough' else 6
     ajobs += [(dict(c, singles=True), 'udp', seed) for c in acfgs[seed % step::step]]
+    # other communication addresses (the values of the protocol's own magic bytes among them)
+    ajobs += [(dict(c, comm_addr=ca), tr, seed) for c in (dict(family='ET', tag='ETU', power=10000, refused=(), battery_mode=2),
+                                                          dict(family='DT', tag='DTU', power=5000, refused=(), battery_mode=0))
+              for ca in (0x55, 0xAA, 0x01, 0x03, 0x7F, 0xF7, 0xFE) for tr in ('udp', 'tcp')]
     # neighbouring registers holding every combination of small values (one configuration per family and meter layout in
     # the quick tier, every configuration in the thorough one)
     sp = acfgs if tier == 'thorough' else [c for i, c in enumerate(acfgs) if i % 7 == seed % 7 or c.get('with_refusals')][:12]
